@@ -1306,10 +1306,6 @@ func setInterfaceTypeFields(cadence.InterfaceType, []cadence.Field)
 
 func (d *Decoder) decodeNominalType(obj jsonObject, kind string, results typeDecodingResults) cadence.Type {
 
-	inits := getKey(d, obj, initializersKey, func(valueJSON any) [][]cadence.Parameter {
-		return d.decodeInitializers(valueJSON, results)
-	})
-
 	compositeTypeID := getKey(d, obj, typeIDKey, d.decodeCompositeTypeID)
 
 	var result cadence.Type
@@ -1323,7 +1319,7 @@ func (d *Decoder) decodeNominalType(obj jsonObject, kind string, results typeDec
 			compositeTypeID.location,
 			compositeTypeID.qualifiedIdentifier,
 			nil,
-			inits,
+			nil,
 		)
 		result = compositeType
 
@@ -1333,24 +1329,17 @@ func (d *Decoder) decodeNominalType(obj jsonObject, kind string, results typeDec
 			compositeTypeID.location,
 			compositeTypeID.qualifiedIdentifier,
 			nil,
-			inits,
+			nil,
 		)
 		result = compositeType
 
 	case "Event":
-		if len(inits) != 1 {
-			panic(errors.NewDefaultUserError(
-				"invalid event: exactly one initializer expected, got %d",
-				len(inits),
-			))
-		}
-
 		compositeType = cadence.NewMeteredEventType(
 			d.gauge,
 			compositeTypeID.location,
 			compositeTypeID.qualifiedIdentifier,
 			nil,
-			inits[0],
+			nil,
 		)
 		result = compositeType
 
@@ -1360,7 +1349,7 @@ func (d *Decoder) decodeNominalType(obj jsonObject, kind string, results typeDec
 			compositeTypeID.location,
 			compositeTypeID.qualifiedIdentifier,
 			nil,
-			inits,
+			nil,
 		)
 		result = compositeType
 
@@ -1370,7 +1359,7 @@ func (d *Decoder) decodeNominalType(obj jsonObject, kind string, results typeDec
 			compositeTypeID.location,
 			compositeTypeID.qualifiedIdentifier,
 			nil,
-			inits,
+			nil,
 		)
 		result = interfaceType
 
@@ -1380,7 +1369,7 @@ func (d *Decoder) decodeNominalType(obj jsonObject, kind string, results typeDec
 			compositeTypeID.location,
 			compositeTypeID.qualifiedIdentifier,
 			nil,
-			inits,
+			nil,
 		)
 		result = interfaceType
 
@@ -1390,7 +1379,7 @@ func (d *Decoder) decodeNominalType(obj jsonObject, kind string, results typeDec
 			compositeTypeID.location,
 			compositeTypeID.qualifiedIdentifier,
 			nil,
-			inits,
+			nil,
 		)
 		result = interfaceType
 
@@ -1405,7 +1394,7 @@ func (d *Decoder) decodeNominalType(obj jsonObject, kind string, results typeDec
 			compositeTypeID.qualifiedIdentifier,
 			rawType,
 			nil,
-			inits,
+			nil,
 		)
 		result = compositeType
 
@@ -1420,7 +1409,7 @@ func (d *Decoder) decodeNominalType(obj jsonObject, kind string, results typeDec
 			compositeTypeID.qualifiedIdentifier,
 			baseType,
 			nil,
-			inits,
+			nil,
 		)
 		result = compositeType
 
@@ -1439,6 +1428,48 @@ func (d *Decoder) decodeNominalType(obj jsonObject, kind string, results typeDec
 		setCompositeTypeFields(compositeType, fields)
 	case interfaceType != nil:
 		setInterfaceTypeFields(interfaceType, fields)
+	}
+
+	// Decode the initializers after the type is registered, and after the fields
+	// (the order in which they are encoded), so parameter types are able to refer
+	// to the type itself, and to types which first occur in the fields.
+	inits := getKey(d, obj, initializersKey, func(valueJSON any) [][]cadence.Parameter {
+		return d.decodeInitializers(valueJSON, results)
+	})
+
+	switch result := result.(type) {
+	case *cadence.StructType:
+		result.Initializers = inits
+
+	case *cadence.ResourceType:
+		result.Initializers = inits
+
+	case *cadence.EventType:
+		if len(inits) != 1 {
+			panic(errors.NewDefaultUserError(
+				"invalid event: exactly one initializer expected, got %d",
+				len(inits),
+			))
+		}
+		result.Initializer = inits[0]
+
+	case *cadence.ContractType:
+		result.Initializers = inits
+
+	case *cadence.StructInterfaceType:
+		result.Initializers = inits
+
+	case *cadence.ResourceInterfaceType:
+		result.Initializers = inits
+
+	case *cadence.ContractInterfaceType:
+		result.Initializers = inits
+
+	case *cadence.EnumType:
+		result.Initializers = inits
+
+	case *cadence.AttachmentType:
+		result.Initializers = inits
 	}
 
 	return result
